@@ -30,7 +30,8 @@ RULE = ("(1) every single-value position of C05's position table x value kind x 
         "ORDER BY/limit/offset, set operations, insert/upsert, update, delete, DDL) with values in several clauses at once, "
         "exempt values (allow_parametrize=False, carrying sentinel values) in every clause; every value rendered inline under an "
         "active parameterizer is seen through the value hook and must be an enum, '*' or exempt; (3) SQLite statements executed in both forms. non-trivial = at least two placeholders; "
-        "distinct = program hash x dialect")
+        "distinct = program hash x dialect"
+        " also: the value list holds the built constants (type and value), twin terms in list-like clauses, every Array / list argument form, a caller's context of another dialect through get_parameterized_sql, a caller-supplied Parameterizer. (DESIGN.md 6a)")
 ASSUMPTIONS = [
     "reference lexers decide placeholder style and literal decoding for the five non-SQLite dialect classes",
     "SQLite execution binds int/float/str/None/bool values only",
